@@ -78,6 +78,8 @@ type Sequence struct {
 	Next     *big.Int // value returned by the next nextval when !Called semantics folded in
 	IsCalled bool
 	Last     *big.Int
+	Cache    int                    // CACHE n (seqcache.go); 0 or 1 = no caching
+	reserved map[*Session]*seqRange // per-session reserved blocks when Cache > 1
 }
 
 type FuncArg struct {
@@ -154,6 +156,9 @@ type Txn struct {
 	txDate    *time.Time
 	deferred  []func() error
 	commitSeq int64
+	rr        bool  // REPEATABLE READ or stricter (repeatable.go)
+	rrSet     bool  // the transaction snapshot has been taken
+	rrSeq     int64 // commits visible to it: commitSeq <= rrSeq
 }
 
 type savept struct {
@@ -187,8 +192,10 @@ type RowVer struct {
 }
 
 type snapshot struct {
-	txn *Txn
-	cid int
+	txn    *Txn
+	cid    int
+	useSeq bool  // transaction-level snapshot (REPEATABLE READ): only commits with commitSeq <= seq are visible
+	seq    int64
 }
 
 func (s snapshot) sees(r *RowVer) bool {
@@ -198,12 +205,15 @@ func (s snapshot) sees(r *RowVer) bool {
 	}
 	switch {
 	case x.top.state == txCommitted:
+		if s.useSeq && x.top != s.txn && x.top.commitSeq > s.seq {
+			return false // committed after this transaction's snapshot
+		}
 	case x.top == s.txn && x.top.state == txActive && r.cmin < s.cid:
 	default:
 		return false
 	}
 	if d := r.xmax; d != nil && !d.aborted {
-		if d.top.state == txCommitted {
+		if d.top.state == txCommitted && !(s.useSeq && d.top != s.txn && d.top.commitSeq > s.seq) {
 			return false
 		}
 		if d.top == s.txn && d.top.state == txActive && r.cmax < s.cid {
@@ -846,7 +856,7 @@ func (db *DB) Clone() *DB {
 			ns.Tables[k] = nt
 		}
 		for k, q := range sc.Seqs {
-			ns.Seqs[k] = &Sequence{Name: q.Name, IsCalled: q.IsCalled, Last: new(big.Int).Set(q.Last)}
+			ns.Seqs[k] = &Sequence{Name: q.Name, IsCalled: q.IsCalled, Last: new(big.Int).Set(q.Last), Cache: q.Cache}
 		}
 		for k, fs := range sc.Funcs {
 			for _, f := range fs {
